@@ -90,6 +90,8 @@ def self_obj(b):
     me = Obj('self', bucket_name=sym.const(STR, 'bucket'), key_id=sym.const(STR, 'key_id'),
              access_key=sym.const(STR, 'access_key'), region=sym.const(STR, 'region'), host=sym.const(STR, 'host'),
              scheme=sym.const(STR, 'scheme'))
+    me._class_source = (S3C_PY, 'S3Compatible')      # methods without a model are the real ones, inlined
+    me._lenient = True                                # attributes without a model hold arbitrary state
     me._attrs['url'] = SV(STR, z3.Concat(me.get('scheme').z, S('://'), me.get('host').z))
 
     def build_request(interp, st, args, kwargs):
